@@ -271,6 +271,33 @@ func (m *mutator) OnEmit(_ context.Context, r *sdklog.Record) error {
 func (m *mutator) Shutdown(context.Context) error   { return nil }
 func (m *mutator) ForceFlush(context.Context) error { return nil }
 
+// failer is registered BEFORE the batch processor and reports an error for every
+// third record (without touching it): the batch processor must still get every record.
+type failer struct{ n atomic.Int64 }
+
+var errFailer = errors.New("failer: record rejected")
+
+func (f *failer) OnEmit(context.Context, *sdklog.Record) error {
+	if f.n.Add(1)%3 == 0 {
+		return errFailer
+	}
+	return nil
+}
+func (f *failer) Shutdown(context.Context) error   { return nil }
+func (f *failer) ForceFlush(context.Context) error { return nil }
+
+// cloneEditor edits a CLONE of the record (which must not show anywhere else).
+type cloneEditor struct{}
+
+func (cloneEditor) OnEmit(_ context.Context, r *sdklog.Record) error {
+	c := r.Clone()
+	mutate(4, &c)
+	mutate(6, &c)
+	return nil
+}
+func (cloneEditor) Shutdown(context.Context) error   { return nil }
+func (cloneEditor) ForceFlush(context.Context) error { return nil }
+
 // capture keeps a clone of the record it sees: the template for direct OnEmit calls.
 type capture struct{ rec sdklog.Record }
 
@@ -445,6 +472,7 @@ const (
 type optSpec struct {
 	q, b, s           *int
 	interval, timeout *time.Duration
+	chain             int // processors registered before the batch processor: 0 none, 1 a failing one, 2 failing + clone-editing
 }
 
 func ip(v int) *int                     { return &v }
@@ -478,7 +506,7 @@ func (o optSpec) String() string {
 		}
 		return p.String()
 	}
-	return "q=" + f(o.q) + " b=" + f(o.b) + " s=" + f(o.s) + " interval=" + g(o.interval) + " timeout=" + g(o.timeout)
+	return "chain=" + strconv.Itoa(o.chain) + " q=" + f(o.q) + " b=" + f(o.b) + " s=" + f(o.s) + " interval=" + g(o.interval) + " timeout=" + g(o.timeout)
 }
 
 // spell chooses a spelling of the effective configuration c (plain; batch size left to
@@ -501,6 +529,7 @@ func spell(r *vgen.Rand, c cfg, interval, timeout time.Duration) optSpec {
 	if timeout == 30*time.Second {
 		o.timeout = []*time.Duration{nil, dp(0), dp(-time.Second)}[r.Intn(3)]
 	}
+	o.chain = r.Intn(3)
 	if interval == time.Second {
 		o.interval = []*time.Duration{nil, dp(0), dp(-time.Hour)}[r.Intn(3)]
 	}
@@ -546,7 +575,15 @@ func newRigSpec(o optSpec) *rig {
 	}
 	bp := sdklog.NewBatchProcessor(g, opts...)
 	mut := &mutator{}
-	lp := sdklog.NewLoggerProvider(sdklog.WithProcessor(bp), sdklog.WithProcessor(mut))
+	var popts []sdklog.LoggerProviderOption
+	if o.chain >= 1 {
+		popts = append(popts, sdklog.WithProcessor(&failer{}))
+	}
+	if o.chain >= 2 {
+		popts = append(popts, sdklog.WithProcessor(cloneEditor{}))
+	}
+	popts = append(popts, sdklog.WithProcessor(bp), sdklog.WithProcessor(mut))
+	lp := sdklog.NewLoggerProvider(popts...)
 	capt := &capture{}
 	sdklog.NewLoggerProvider(sdklog.WithProcessor(capt)).Logger("c06").Emit(context.Background(), log.Record{})
 	return &rig{rec: rec, g: g, bp: bp, lp: lp, mut: mut, logger: lp.Logger("c06"), tmpl: capt.rec}
@@ -554,8 +591,26 @@ func newRigSpec(o optSpec) *rig {
 
 func (r *rig) emit(t, g, k int) { r.emitShape(t, g, k, 7) }
 
+// emitCtx: the context an Emit is issued with.  The processor ignores it (a record emitted
+// with a cancelled or expired context is a record emitted): mostly background, some
+// already cancelled, some past their deadline.
+func emitCtx(g, k int) context.Context {
+	switch (g*7 + k) % 6 {
+	case 1:
+		ctx, cancel := context.WithCancel(context.Background())
+		cancel()
+		return ctx
+	case 4:
+		ctx, cancel := context.WithDeadline(context.Background(), time.Now().Add(-time.Second))
+		_ = cancel
+		return ctx
+	}
+	return context.Background()
+}
+
 func (r *rig) emitShape(t, g, k, shape int) {
 	id := recID{g, k, 0}
+	ectx := emitCtx(g, k)
 	direct := r.direct == 1 || (r.direct == 2 && (g+k)%2 == 1)
 	if !direct {
 		lr := mkRecord(g, k, shape)
@@ -564,14 +619,14 @@ func (r *rig) emitShape(t, g, k, shape int) {
 		if !r.logger.Enabled(context.Background(), log.EnabledParameters{Severity: log.SeverityInfo}) {
 			r.rec.add(event{kind: evBegin, batch: []recID{{998, 998, 1}}}) // makes the history fail
 		}
-		r.logger.Emit(context.Background(), lr)
+		r.logger.Emit(ectx, lr)
 		r.rec.add(event{kind: evRet, t: t, op: opEmit, r: id, ret: rNil})
 		return
 	}
 	sr := r.tmpl.Clone()
 	fillRecord(&sr, g, k, shape)
 	r.rec.add(event{kind: evCall, t: t, op: opEmit, r: id})
-	err := r.bp.OnEmit(context.Background(), &sr)
+	err := r.bp.OnEmit(ectx, &sr)
 	r.rec.add(event{kind: evRet, t: t, op: opEmit, r: id, ret: classify(err)})
 	mutate(int(r.mut.how.Load()), &sr) // the caller goes on using ITS record
 }
